@@ -217,3 +217,36 @@ func (m *Map) Range(f func(k, v interface{}) bool) {
 		}
 	}
 }
+
+// Cond mirrors sync.Cond.
+type Cond struct {
+	L       Locker
+	waiters int
+	tickets int
+}
+
+func NewCond(l Locker) *Cond { return &Cond{L: l} }
+
+func (c *Cond) Wait() {
+	if vs.Aborting() {
+		return
+	}
+	c.waiters++
+	c.L.Unlock()
+	vs.BlockObj("cond.wait", c, func() bool { return c.tickets > 0 })
+	c.tickets--
+	c.waiters--
+	c.L.Lock()
+}
+
+func (c *Cond) Signal() {
+	if c.waiters > c.tickets {
+		c.tickets++
+	}
+	vs.Touch(c, "cond.signal")
+}
+
+func (c *Cond) Broadcast() {
+	c.tickets = c.waiters
+	vs.Touch(c, "cond.broadcast")
+}
